@@ -164,8 +164,27 @@ func allStmts(s *yang.Statement, out *[]*yang.Statement) {
 
 type fail struct{ fp, exp, obs string }
 
-// check loads text; returns whether it was accepted.
+// check loads the text twice in this process: the builder keeps per-node-type tables, so the second
+// build of a text meets whatever the first left behind; the verdicts must be the same and both
+// builds must satisfy the oracle.
 func check(in Input) (f *fail, accepted bool) {
+	f1, a1 := check1(in)
+	if f1 != nil {
+		return f1, a1
+	}
+	f2, a2 := check1(in)
+	if f2 != nil {
+		f2.fp += "@second-build"
+		return f2, a2
+	}
+	if a1 != a2 {
+		return &fail{"second-build-verdict", fmt.Sprintf("accepted=%v as in the first build", a1), fmt.Sprintf("accepted=%v", a2)}, a1
+	}
+	return nil, a1
+}
+
+// check1 loads text; returns whether it was accepted.
+func check1(in Input) (f *fail, accepted bool) {
 	var err error
 	var problems []string
 	nmods := 0
@@ -236,6 +255,19 @@ func render(chain []string, inner string) string {
 	return sb.String()
 }
 
+// renderExt is render with an extension statement before and after the block of every level.
+func renderExt(chain []string, inner string) string {
+	var sb strings.Builder
+	for i, k := range chain {
+		fmt.Fprintf(&sb, "%s x%d { %s p:a%d 1; ", k, i, needText(k, 0), i)
+	}
+	sb.WriteString(inner)
+	for i := range chain {
+		fmt.Fprintf(&sb, " q:b%d 2; }", len(chain)-1-i)
+	}
+	return sb.String()
+}
+
 func stmt(k, arg string, omit int) string {
 	if len(need[k]) == 0 {
 		return fmt.Sprintf("%s %s;", k, arg)
@@ -290,7 +322,7 @@ func shards(tier string) []string {
 }
 
 func run(c *core.Ctx) {
-	c.Res.Bound = fmt.Sprintf("context chains to depth %d (BFS, one per reachable keyword) x %d child keywords x shapes (x1 x2 x3, interleaved, extension before/after/with block, no argument, every subset of mandatory substatements omitted); every keyword at top level", maxDepth(c.Tier), len(K))
+	c.Res.Bound = fmt.Sprintf("context chains to depth %d (BFS, one per reachable keyword) x %d child keywords x shapes (x1 x2 x3, interleaved, extension before/after/with block, extensions at every level of the chain, the context keyword nested again below the child with extensions at each level, no argument, every subset of mandatory substatements omitted); every keyword at top level; every text built twice in one process", maxDepth(c.Tier), len(K))
 	one := func(in Input) {
 		caseNo, run := c.Begin()
 		if c.Skip(caseNo, run, in) {
@@ -373,6 +405,24 @@ func run(c *core.Ctx) {
 			} else {
 				one(Input{Text: render(chain, fmt.Sprintf("%s y { p:e 1; %s q:f 2; }", k, needText(k, 0))), MustError: unknown, Why: why})
 			}
+			// the context's own keyword again below the child (container in list in container, choice
+			// in case in choice, type in type ...), every level carrying extension statements
+			// before and after its block
+			if len(chain) > 1 {
+				L := chain[len(chain)-1]
+				lv := func(k, name, before, inner, after string) string {
+					return fmt.Sprintf("%s %s { %s %s %s %s }", k, name, needText(k, 0), before, inner, after)
+				}
+				in3 := lv(L, "y", "p:e 1;", lv(k, "v", "p:m 5;", lv(L, "z", "q:f 2;", "", "q:h 7;"), "p:n 6;"), "r:g 3;")
+				one(Input{Text: render(chain[:len(chain)-1], in3), MustError: unknown, Why: why})
+				if k == L {
+					in2 := lv(L, "y", "p:e 1;", lv(L, "z", "q:f 2;", "", "q:h 7;"), "r:g 3;")
+					one(Input{Text: render(chain[:len(chain)-1], in2)})
+					one(Input{Text: render(chain[:len(chain)-1], lv(L, "w", "p:w 0;", "", "")+" "+in2)})
+				}
+			}
+			// the child below a chain whose every level has extension statements around its block
+			one(Input{Text: renderExt(chain, base), MustError: unknown, Why: why})
 			// without argument
 			if len(need[k]) == 0 {
 				one(Input{Text: render(chain, k+";"), MustError: unknown, Why: why})
@@ -464,7 +514,7 @@ func replay(tier string, raw json.RawMessage) (bool, string, string) {
 func init() {
 	core.Register(&core.Prop{
 		ID: "C03", Variant: "plain", Shards: shards, Run: run, Replay: replay,
-		Rule:        "breadth-first reachability over statement contexts starting at module and submodule; in every reachable context every keyword of the alphabet (RFC 7950 keywords, the builder's meta names, an unknown word, a prefixed extension) is tried as a child once, twice, three times, interleaved with another statement and with extension statements (with and without blocks), without argument, and with every subset of its mandatory substatements omitted or doubled; every keyword is also tried at top level alone and next to a valid module. Oracle: Modules.Parse returns an error, or a reflection walk over the exported fields finds every source statement exactly once under the field tagged with its keyword (extensions list for prefixed keywords), in source order, with name = argument, parent = enclosing node, statement = the source statement; must-reject classes must give an error. states = distinct texts; non-trivial = accepted texts",
+		Rule:        "breadth-first reachability over statement contexts starting at module and submodule; in every reachable context every keyword of the alphabet (RFC 7950 keywords, the builder's meta names, an unknown word, a prefixed extension) is tried as a child once, twice, three times, interleaved with another statement and with extension statements (with and without blocks), without argument, and with every subset of its mandatory substatements omitted or doubled; every keyword is also tried at top level alone and next to a valid module; the context's own keyword is nested again below the child with extension statements at each level, and every text is built twice in the same process (same verdict, both builds checked). Oracle: Modules.Parse returns an error, or a reflection walk over the exported fields finds every source statement exactly once under the field tagged with its keyword (extensions list for prefixed keywords), in source order, with name = argument, parent = enclosing node, statement = the source statement; must-reject classes must give an error. states = distinct texts; non-trivial = accepted texts",
 		Assumptions: []string{"an extension statement is a unit: its own substatements are not expected in the AST", "the table of mandatory substatements is taken from RFC 7950 (YANG 1 cardinality-1 rows)"},
 	})
 }
